@@ -10,7 +10,7 @@ CHECKS = {
   "text": "Lean theorems c05_charset/no_sep/special/roundtrip/injective/accepts_alternatives hold for every String, '' and None "
           "over the model Ari.encodeString/decodeString; the model is tied to protocol.encode_string/decode_string by a "
           "differential over all code points (thorough: all 1,112,064), all short special strings, random strings, "
-          "alternative encodings and malformed tokens, and the same statements are evaluated on the real functions.",
+          "alternative encodings and malformed tokens, and the same statements are evaluated on the real functions. End to end: every text token the real DataProviderServer writes for item names that arrived in any standard URL-encoding (java.net.URLEncoder's literal * included) is over the property's alphabet and decodes to the adapter's value (stream outbound-token-conformance).",
   "ref": "DESIGN.md §5 C05",
   "note": "trusted: Lean kernel + 3 standard axioms; harness; CPython's quote_plus/unquote_plus are what is being compared (modelled, not verified)",
   "technique": "Lean 4 proof (induction + decide +kernel over 256 bytes) + pure differential correspondence"},
